@@ -126,8 +126,56 @@ func escNames(m uint8) string {
 func runC17(c *core.Check) {
 	c.Rule("C17.js", "operands spliced into JavaScript that reaches RunString are numeric, JSON, or escaped for their quoting context")
 	c.Rule("C17.validate", "LayoutNested: every success return passes validateObjectPositions; layout callback errors are returned")
+	runJSClause(c, "C17.js", []string{"d2layouts/d2dagrelayout", "d2layouts/d2elklayout", "d2renderers/d2latex", "d2renderers/d2sketch", "lib/jsrunner", "d2graph", "d2renderers/d2svg", "d2target", "d2layouts", "d2themes", "lib/svg", "lib/color"}, nil, 15, 20)
+
+	// (2) validation on success paths of LayoutNested
+	ln := mustFunc(c, "d2layouts", "", "LayoutNested")
+	if ln != nil {
+		info := ln.Pkg.TypesInfo
+		fl := core.NewFlow(ln.Pkg, ln.Decl.Body)
+		n := 0
+		for _, ex := range fl.Exits() {
+			if ex.Ret == nil || len(ex.Ret.Results) != 1 {
+				continue
+			}
+			// error paths: the result is a constructed error, or the return is guarded by `<err> != nil`
+			if _, isCall := ast.Unparen(ex.Ret.Results[0]).(*ast.CallExpr); isCall {
+				continue
+			}
+			errPath := false
+			for _, g := range fl.GuardsOf(ex.Blk) {
+				for _, a := range g.Atoms() {
+					if x, nonNil, ok := a.NilTest(info); ok && nonNil {
+						if t := info.TypeOf(x); t != nil && types.TypeString(t, nil) == "error" {
+							errPath = true
+						}
+					}
+				}
+			}
+			if errPath {
+				continue
+			}
+			n++
+			ok, _ := fl.MustPassBefore(ex.Blk, ex.Idx, func(nd ast.Node) bool {
+				call, isCall := nd.(*ast.CallExpr)
+				if !isCall {
+					return false
+				}
+				f := core.CalleeOf(info, call)
+				return f != nil && f.Name() == "validateObjectPositions"
+			})
+			c.Decide(ok, "C17.validate", "LayoutNested:validate≺success-return", ex.Ret.Pos(), "validation on the success path", "LayoutNested can return success without validating object positions")
+		}
+		if n == 0 {
+			c.Fail("C17.validate", "LayoutNested:no-success-return", ln.Decl.Pos(), "no success return found")
+		}
+	}
+}
+
+// runJSClause judges every format operand that reaches JSRunner.RunString in the given scope.
+// only (optional) restricts the RunString call sites by the package of the calling function.
+func runJSClause(c *core.Check, rule string, scope []string, only map[string]bool, minRun, minOps int) {
 	cfg := jsTaintConfig()
-	scope := []string{"d2layouts/d2dagrelayout", "d2layouts/d2elklayout", "d2renderers/d2latex", "d2renderers/d2sketch", "lib/jsrunner", "d2graph", "d2renderers/d2svg", "d2target", "d2layouts", "d2themes", "lib/svg", "lib/color"}
 	type rep struct {
 		fn      *ssa.Function
 		pos     token.Pos
@@ -187,6 +235,9 @@ func runC17(c *core.Check) {
 				if f.Pkg != nil && core.RelPkg(f.Pkg.Pkg.Path()) == "lib/jsrunner" {
 					continue
 				}
+				if only != nil && (f.Pkg == nil || !only[core.RelPkg(f.Pkg.Pkg.Path())]) {
+					continue
+				}
 				nrun++
 				arg := cc.Args[len(cc.Args)-1]
 				k := e.resolve(f, e.kind(arg, 0), 0)
@@ -194,11 +245,11 @@ func runC17(c *core.Check) {
 				key := "runstring:" + fname
 				// the script as a whole: a tainted script that did not go through a judged format is spliced by concatenation
 				if _, isConst := arg.(*ssa.Const); isConst {
-					c.PassTrivial("C17.js", key, ci.Pos(), "constant script")
+					c.PassTrivial(rule, key, ci.Pos(), "constant script")
 				} else if k.k == KTainted && len(reps) == 0 {
-					c.Fail("C17.js", key, ci.Pos(), "script is built from user text without a format the checker can judge: "+k.why)
+					c.Fail(rule, key, ci.Pos(), "script is built from user text without a format the checker can judge: "+k.why)
 				} else {
-					c.Pass("C17.js", key, ci.Pos(), "script operands judged at their format calls ("+k.k.String()+")")
+					c.Pass(rule, key, ci.Pos(), "script operands judged at their format calls ("+k.k.String()+")")
 				}
 			}
 		}
@@ -212,7 +263,7 @@ func runC17(c *core.Check) {
 		switch {
 		case r.k.k == KTainted && r.ctx == jsBare:
 			for _, src := range r.k.srcs {
-				c.Fail("C17.js", key+"←"+src, r.pos, fmt.Sprintf("user-controlled %s is spliced into JavaScript source outside any string literal: it is evaluated as code", src))
+				c.Fail(rule, key+"←"+src, r.pos, fmt.Sprintf("user-controlled %s is spliced into JavaScript source outside any string literal: it is evaluated as code", src))
 			}
 		case r.k.k == KTainted && r.ctx.required()&^r.k.esc != 0:
 			srcs := r.k.srcs
@@ -220,63 +271,21 @@ func runC17(c *core.Check) {
 				srcs = []string{"?"}
 			}
 			for _, src := range srcs {
-				c.Fail("C17.js", key+"←"+src, r.pos, fmt.Sprintf("user-controlled %s is spliced into a JavaScript %s with only [%s] escaped; [%s] can terminate the literal or start an interpolation, so the text is evaluated as code (syntax error, hang, or arbitrary JS in the VM)",
+				c.Fail(rule, key+"←"+src, r.pos, fmt.Sprintf("user-controlled %s is spliced into a JavaScript %s with only [%s] escaped; [%s] can terminate the literal or start an interpolation, so the text is evaluated as code (syntax error, hang, or arbitrary JS in the VM)",
 					src, r.ctx, escNames(r.k.esc), escNames(r.ctx.required()&^r.k.esc)))
 			}
 		case r.k.k == KTainted:
-			c.Pass("C17.js", key, r.pos, fmt.Sprintf("user text escaped for a %s: [%s]", r.ctx, escNames(r.k.esc)))
+			c.Pass(rule, key, r.pos, fmt.Sprintf("user text escaped for a %s: [%s]", r.ctx, escNames(r.k.esc)))
 		case r.k.k == KUnknown:
-			c.PassTrivial("C17.js", key, r.pos, "unclassified: "+r.k.why)
+			c.PassTrivial(rule, key, r.pos, "unclassified: "+r.k.why)
 		default:
-			c.Pass("C17.js", key, r.pos, r.k.k.String()+" in "+r.ctx.String())
+			c.Pass(rule, key, r.pos, r.k.k.String()+" in "+r.ctx.String())
 		}
 	}
 	c.Note("RunString call sites outside lib/jsrunner: %d; format operands judged: %d", nrun, len(reps))
-	if nrun < 15 {
-		c.Fail("floor", "floor:C17.runstring", token.NoPos, fmt.Sprintf("only %d RunString call sites found", nrun))
+	if nrun < minRun {
+		c.Fail("floor", "floor:"+rule+".runstring", token.NoPos, fmt.Sprintf("only %d RunString call sites found", nrun))
 	}
-	c.Floor("C17.js", 20)
-
-	// (2) validation on success paths of LayoutNested
-	ln := mustFunc(c, "d2layouts", "", "LayoutNested")
-	if ln != nil {
-		info := ln.Pkg.TypesInfo
-		fl := core.NewFlow(ln.Pkg, ln.Decl.Body)
-		n := 0
-		for _, ex := range fl.Exits() {
-			if ex.Ret == nil || len(ex.Ret.Results) != 1 {
-				continue
-			}
-			// error paths: the result is a constructed error, or the return is guarded by `<err> != nil`
-			if _, isCall := ast.Unparen(ex.Ret.Results[0]).(*ast.CallExpr); isCall {
-				continue
-			}
-			errPath := false
-			for _, g := range fl.GuardsOf(ex.Blk) {
-				for _, a := range g.Atoms() {
-					if x, nonNil, ok := a.NilTest(info); ok && nonNil {
-						if t := info.TypeOf(x); t != nil && types.TypeString(t, nil) == "error" {
-							errPath = true
-						}
-					}
-				}
-			}
-			if errPath {
-				continue
-			}
-			n++
-			ok, _ := fl.MustPassBefore(ex.Blk, ex.Idx, func(nd ast.Node) bool {
-				call, isCall := nd.(*ast.CallExpr)
-				if !isCall {
-					return false
-				}
-				f := core.CalleeOf(info, call)
-				return f != nil && f.Name() == "validateObjectPositions"
-			})
-			c.Decide(ok, "C17.validate", "LayoutNested:validate≺success-return", ex.Ret.Pos(), "validation on the success path", "LayoutNested can return success without validating object positions")
-		}
-		if n == 0 {
-			c.Fail("C17.validate", "LayoutNested:no-success-return", ln.Decl.Pos(), "no success return found")
-		}
-	}
+	c.Floor(rule, minOps)
 }
+
